@@ -189,7 +189,7 @@ impl RequestHandler<Rename> for RenameHandler {
                         })
                         .collect::<HashMap<_, _>>();
 
-                    let changes = def
+                    let mut changes = def
                         .definition_and_usages()
                         .into_iter()
                         .filter(|dl| {
@@ -213,6 +213,34 @@ impl RequestHandler<Rename> for RenameHandler {
                             (loc.uri, edit)
                         })
                         .into_group_map();
+
+                    // A file that is imported more than once yields one symbol per import, all defined at the same place in
+                    // the source: to the user that is one symbol, so the usages that reach it through the other imports are
+                    // renamed as well (each usage is one identifier of a path)
+                    let defined_at = codegen.analysis().look_up(location.span);
+                    let twins = codegen
+                        .analysis()
+                        .find(defined_at.file.name(), defined_at.begin);
+                    for (_, twin) in twins.iter().filter(|(ty, twin)| {
+                        matches!(ty, DefinitionType::Symbol(_))
+                            && twin.location.as_ref().map(|l| l.span) == Some(location.span)
+                    }) {
+                        for dl in twin.usages() {
+                            let sl = codegen.analysis().look_up(dl.span);
+                            if Identifier::from(sl.file.source_slice(dl.span)).is_super() {
+                                continue;
+                            }
+                            let loc = to_location(sl);
+                            let range = loc.range;
+                            let edits = changes.entry(loc.uri).or_default();
+                            if !edits.iter().any(|e: &TextEdit| e.range == range) {
+                                edits.push(TextEdit {
+                                    range,
+                                    new_text: params.new_name.clone(),
+                                });
+                            }
+                        }
+                    }
                     return Ok(Some(WorkspaceEdit {
                         changes: Some(changes),
                         document_changes: None,
